@@ -72,7 +72,11 @@ func zzVerifyCheck(emBits, sLen int) {
 
 //zz: prop=C18 tier=quick backend=bv timeout=300
 func ZZ_C18_emsaPSSVerify_salted() {
-	zzVerifyCheck(zzPick("emBits", 535, 536, 537, 543, 544, 775, 776), 32) // 775/776: emLen = 97, data block of exactly 2 hash lengths
+	bits := []int{535, 536, 537, 543, 544, 775, 776}
+	if zzThorough() {
+		bits = append(bits, 538, 539, 540, 541, 542, 545, 777, 783, 784, 1023, 1024, 1025)
+	}
+	zzVerifyCheck(zzPick("emBits", bits...), 32) // 775/776: emLen = 97, data block of exactly 2 hash lengths
 }
 
 // salt length given as rsa.PSSSaltLengthEqualsHash (-1)
